@@ -509,3 +509,38 @@ def run(index, rep, tier):
                         rep.check(ok, "R12.10", fi.qualname, "annotations copied from the copy into the source", fn_where(fi, c), "%s: %s" % (fi.name, norm(c)[:60]),
                                   "%s calls `%s`: in a copy hook the receiver `self` is the SOURCE, so this copies the new object's (still empty) annotations into the source and leaves the copy without the source's annotations" % (fi.qualname, norm(c)[:70]))
         rep.floor("R12.10", "annotation copies in copy hooks", 4, n10)
+
+    # ---- R12.11 a copy that takes over another object's state takes over its annotations too
+    with rep.section("R12.11"):
+        rep.rule("R12.11", "a copy that takes over another object's state takes over its annotations: after `self.__dict__ = t.__dict__` (the copy constructors build a deep copy `t` and adopt its state) every normal path re-targets the annotation set to self - `self.annotations = ...`, whose setter re-points the set and every attribute-bound annotation - otherwise the annotations stay bound to the hidden alias `t`: bound annotations do not follow the copy's attributes, and deep-copying the copy fails; and the setter itself re-points bound annotations by rewriting their `_value`")
+        n11 = 0
+        for m in PROP_MODULES["C12"]:
+            for fi in index.functions_in_module(m):
+                g = None
+                for st in walk_no_nested(fi.node):
+                    if isinstance(st, ast.Assign) and norm(st.targets[0]) == "self.__dict__" and isinstance(st.value, ast.Attribute) and st.value.attr == "__dict__":
+                        n11 += 1
+                        g = g or cfg_of(fi)
+                        nd = node_of_ast(g, st)
+
+                        def retargets(n):
+                            a = n.ast
+                            if isinstance(a, ast.Assign) and any(norm(t) == "self.annotations" for t in a.targets):
+                                return True
+                            return isinstance(a, ast.Assign) and any(norm(t) in ("self._annotations.target",) for t in a.targets)
+                        ok, w = g.must_pass(nd, retargets) if nd is not None else (False, None)
+                        # the re-targeting may be guarded only by the presence of annotations
+                        if not ok:
+                            def no_annotations(a_, lab, b_):
+                                if a_.kind == "test" and "_annotations" in norm(a_.ast) and lab == "f":
+                                    return False
+                                return lab != "e"
+                            ok = nd is not None and g.can_reach(nd, lambda n: n is g.exit, avoid=retargets, follow_exc=False, edge_ok=no_annotations) is None
+                        rep.check(ok, "R12.11", fi.qualname, "state adopted without re-targeting the annotations", fn_where(fi, st), "%s re-targets the annotations it adopted" % fi.qualname,
+                                  "%s adopts the state of a deep copy with `%s` and can return without pointing the annotation set at self: the set's target, and every attribute-bound annotation, still refer to the temporary copy - a bound annotation on the result keeps reporting the attribute as it was at copy time, and copy.deepcopy() of the result raises AttributeError: 'Annotation' object has no attribute 'is_attribute'" % (fi.qualname, norm_stmt(st)))
+        rep.floor("R12.11", "state take-overs in the copy constructors", 3, n11)
+        sa_ = index.function(DM + "basemodel.Annotable._set_annotations")
+        writes_value = any(isinstance(a, ast.Assign) and any(isinstance(t, ast.Attribute) and t.attr == "_value" for t in a.targets) for a in ast.walk(sa_.node))
+        stray = [a for a in ast.walk(sa_.node) if isinstance(a, ast.Assign) and any(isinstance(t, ast.Attribute) and t.attr == "target" and isinstance(t.value, ast.Name) and t.value.id != "self" for t in a.targets)]
+        rep.check(writes_value and not stray, "R12.11", sa_.qualname, "bound annotations not re-pointed through `_value`", fn_where(sa_, stray[0] if stray else None), "the annotations setter rewrites `_value` of bound annotations",
+                  "Annotable._set_annotations re-points attribute-bound annotations with `%s`: an Annotation keeps its owner in `_value` (owner, attribute name) - assigning a `target` attribute changes nothing, so the annotation goes on reading the attribute of the previous owner" % (norm_stmt(stray[0]) if stray else "nothing"))
